@@ -221,7 +221,7 @@ func runSample(probe string, fp *syscall.SockFprog, s sample) (string, int, stri
 		select {
 		case <-started:
 			stuck <- false
-		case <-time.After(3 * time.Second):
+		case <-time.After(10 * time.Second):
 			killChildren()
 			stuck <- true
 		}
@@ -247,7 +247,7 @@ func runSample(probe string, fp *syscall.SockFprog, s sample) (string, int, stri
 		return "stuck", 0, "child never reached exec"
 	}
 	var ws syscall.WaitStatus
-	deadline := time.Now().Add(1 * time.Second)
+	deadline := time.Now().Add(5 * time.Second)
 	blocked := false
 	for {
 		wpid, err := syscall.Wait4(pid, &ws, syscall.WNOHANG, nil)
